@@ -18,7 +18,7 @@ Definition wk_pending (w : wpc) : bool :=
   | WCopy ws1 mid ws2 => ws_dirty ws1 || mid_dirty mid || ws_dirty ws2
   | WMid mid ws2 => mid_dirty mid || ws_dirty ws2
   | WFlush ws2 e => ws_dirty ws2 || is_err e
-  | WCloseP e | WWaitDone e | WSend e => is_err e
+  | WCloseP e | WWaitDone e | WDefer e | WSend e => is_err e
   | _ => false
   end.
 Definition pipe_pending (o : option pipe) : bool :=
@@ -37,13 +37,15 @@ Definition send_err (c : cpc) : bool := match c with CSend RErr => true | _ => f
 (** an error is on its way into main's retErr *)
 Definition owed (s : state) : bool :=
   is_err (s_ret s) || some_err (s_werr s) || some_err (s_cerr s) || send_err (s_cons s).
+(** the error the worker is about to report *)
+Definition wk_res (w : wpc) : option res := match w with WSend r | WDefer r => Some r | _ => None end.
 Definition cons_live (c : cpc) : bool := match c with CStart | CDo _ => true | _ => false end.
 Definition rearm_phase (m : mpc) : bool := match m with MRearmW | MRearmC | MCancel => true | _ => false end.
 
 (** auxiliary invariant (needs the guardian for [aC1]) *)
 Record SafeA (s : state) : Prop := mkSafeA {
   aG1 : in_loop (s_main s) = true -> s_ret s = RNil /\ s_ficlosed s = false /\ s_canc s = false;
-  aW1 : in_loop (s_main s) = true -> (forall r, s_werr s = Some r -> r = RErr) /\ (forall r, s_wk s = WSend r -> r = RErr);
+  aW1 : in_loop (s_main s) = true -> (forall r, s_werr s = Some r -> r = RErr) /\ (forall r, wk_res (s_wk s) = Some r -> r = RErr);
   aC1 : in_loop (s_main s) = true -> (forall r, s_cerr s = Some r -> r = RErr) /\ (forall r, s_cons s = CSend r -> r = RErr);
   aK0 : rearm_phase (s_main s) = true -> s_ret s = RErr;
   aK : s_canc s = true -> s_ret s = RErr;
@@ -90,12 +92,12 @@ Ltac safe_solve :=
             | intuition congruence
             | repeat split; intros; intuition congruence ].
 
-Lemma safeA_step : forall p a s s', p_cons p = guardian -> Inv s -> SafeA s -> step p a s = Some s' -> SafeA s'.
+Lemma safeA_step : forall p a s s', p_cons p = guardian -> p_closefail p = false -> Inv s -> SafeA s -> step p a s = Some s' -> SafeA s'.
 Proof.
-  intros p a s s' G I SA H. destruct I as [A1 A2 A3 B1 B2 B3 C1 C2 C3 D0 D1 D2 E].
+  intros p a s s' G CF I SA H. destruct I as [A1 A2 A3 B1 B2 B3 C1 C2 C3 D0 D1 D2 E].
   destruct SA as [G1 W1 Cn1 K0 K F1 F2 F3 J3].
   destruct s as [ctx canc wch wcl werr cerr ficl mn ret files wk cons pp].
-  destruct a; unfold step in H; rewrite ?G in H; sred; repeat brk H; inv H; constructor; sred; safe_solve.
+  destruct a; unfold step in H; rewrite ?G, ?CF in H; sred; repeat brk H; inv H; constructor; sred; safe_solve.
   all: try solve [match goal with HK : ?c = true -> _ = RErr, Hc : ?c = true |- _ => rewrite (HK Hc); reflexivity end].
   all: try solve [exfalso; match goal with H : _ \/ _ |- _ => destruct H; subst; cbn in *; discriminate end].
   all: try solve [split; intros ? HH; inv HH; try discriminate; try reflexivity;
@@ -157,73 +159,73 @@ Ltac bt :=
           | |- ?b = true => batom b
           end)] ].
 
-Ltac start G :=
+Ltac start G CF :=
   intros s s' I SA HS H;
   destruct I as [A1 A2 A3 B1 B2 B3 C1 C2 C3 D0 D1 D2 E];
   destruct SA as [G1 W1 Cn1 K0 K F1 F2 F3 J3];
   destruct s as [ctx canc wch wcl werr cerr ficl mn ret files wk cons [[al ao aic aoc ar]|]];
-  unfold step in H; rewrite ?G in H; sred; repeat brk H; inv H; sgcbn.
+  unfold step in H; rewrite ?G, ?CF in H; sred; repeat brk H; inv H; sgcbn.
 
-Lemma sS_cancel : forall p, p_cons p = guardian ->
+Lemma sS_cancel : forall p, p_cons p = guardian -> p_closefail p = false ->
   forall s s', Inv s -> SafeA s -> sgood s = true -> step p ACancel s = Some s' -> sgood s' = true.
-Proof. intros p G. start G; bt. Qed.
+Proof. intros p G CF. start G CF; bt. Qed.
 
-Lemma sS_main : forall p, p_cons p = guardian ->
+Lemma sS_main : forall p, p_cons p = guardian -> p_closefail p = false ->
   forall s s', Inv s -> SafeA s -> sgood s = true -> step p AMain s = Some s' -> sgood s' = true.
 Proof.
-  intros p G. start G; try bt.
+  intros p G CF. start G CF; try bt.
   all: prep; subst; sgcbn; try bt.
   all: try (destruct ret; destruct r; sgcbn; bt).
 Qed.
 
 Ltac use_some := match goal with H : forall r0 : res, Some ?r = Some r0 -> r0 = RErr |- _ => pose proof (H r eq_refl); subst end.
 
-Lemma sS_mainW : forall p, p_cons p = guardian ->
+Lemma sS_mainW : forall p, p_cons p = guardian -> p_closefail p = false ->
   forall s s', Inv s -> SafeA s -> sgood s = true -> step p AMainW s = Some s' -> sgood s' = true.
 Proof.
-  intros p G. start G; try bt. all: prep; use_some; sgcbn; reflexivity.
+  intros p G CF. start G CF; try bt. all: prep; use_some; sgcbn; reflexivity.
 Qed.
 
-Lemma sS_mainC : forall p, p_cons p = guardian ->
+Lemma sS_mainC : forall p, p_cons p = guardian -> p_closefail p = false ->
   forall s s', Inv s -> SafeA s -> sgood s = true -> step p AMainC s = Some s' -> sgood s' = true.
 Proof.
-  intros p G. start G; try bt. all: prep; use_some; sgcbn; reflexivity.
+  intros p G CF. start G CF; try bt. all: prep; use_some; sgcbn; reflexivity.
 Qed.
 
-Lemma sS_mainF : forall p, p_cons p = guardian ->
+Lemma sS_mainF : forall p, p_cons p = guardian -> p_closefail p = false ->
   forall s s', Inv s -> SafeA s -> sgood s = true -> step p AMainF s = Some s' -> sgood s' = true.
 Proof.
-  intros p G. start G; try bt.
+  intros p G CF. start G CF; try bt.
   all: prep; try discriminate.
   all: rewrite file_pending_start in HS; destruct f; sgcbn; unfold files_pending in *; bt.
 Qed.
 
-Lemma sS_wk : forall p, p_cons p = guardian ->
+Lemma sS_wk : forall p, p_cons p = guardian -> p_closefail p = false ->
   forall s s', Inv s -> SafeA s -> sgood s = true -> step p AWk s = Some s' -> sgood s' = true.
 Proof.
-  intros p G. start G; try bt.
+  intros p G CF. start G CF; try bt.
   all: try (destruct r; sgcbn; bt).
   all: try (destruct (p_startfail p); sgcbn; bt).
 Qed.
 
-Lemma sS_wkcanc : forall p, p_cons p = guardian ->
+Lemma sS_wkcanc : forall p, p_cons p = guardian -> p_closefail p = false ->
   forall s s', Inv s -> SafeA s -> sgood s = true -> step p AWkCanc s = Some s' -> sgood s' = true.
 Proof.
-  intros p G. start G; try bt.
+  intros p G CF. start G CF; try bt.
   all: prep; subst; sgcbn; reflexivity.
 Qed.
 
-Lemma sS_consctx : forall p, p_cons p = guardian ->
+Lemma sS_consctx : forall p, p_cons p = guardian -> p_closefail p = false ->
   forall s s', Inv s -> SafeA s -> sgood s = true -> step p AConsCtx s = Some s' -> sgood s' = true.
 Proof.
-  intros p G. start G; try bt.
+  intros p G CF. start G CF; try bt.
   all: cbn in *; match goal with HH : Some _ = Some _ |- _ => inv HH end; sgcbn; bt.
 Qed.
 
-Lemma sS_cons : forall p, p_cons p = guardian ->
+Lemma sS_cons : forall p, p_cons p = guardian -> p_closefail p = false ->
   forall s s', Inv s -> SafeA s -> sgood s = true -> step p ACons s = Some s' -> sgood s' = true.
 Proof.
-  intros p G. start G; try bt.
+  intros p G CF. start G CF; try bt.
   all: try (destruct r; sgcbn; bt).
   all: try (destruct m; cbn in *; try discriminate; sgcbn; try bt).
   all: try (match goal with HH : Some _ = Some _ |- _ => inv HH end; sgcbn; bt).
@@ -233,10 +235,10 @@ Proof.
        match goal with HJ : _ = [] \/ _ = RErr |- _ => destruct HJ; subst end; sgcbn; try bt; try reflexivity.
 Qed.
 
-Lemma sS_wa : forall p, p_cons p = guardian ->
+Lemma sS_wa : forall p, p_cons p = guardian -> p_closefail p = false ->
   forall s s', Inv s -> SafeA s -> sgood s = true -> step p AWA s = Some s' -> sgood s' = true.
 Proof.
-  intros p G. start G; try bt.
+  intros p G CF. start G CF; try bt.
   all: match goal with HA : agg_in _ _ = (_, _) |- _ => apply agg_in_pending in HA end.
   all: cbn [existsb] in HS; unfold ws_dirty in *; cbn [existsb] in HS.
   all: match goal with HA : ?l || ?e = _ |- _ => 
@@ -244,29 +246,29 @@ Proof.
          rewrite HA end; bt.
 Qed.
 
-Lemma sS_agg : forall p, p_cons p = guardian ->
+Lemma sS_agg : forall p, p_cons p = guardian -> p_closefail p = false ->
   forall s s', Inv s -> SafeA s -> sgood s = true -> step p AAgg s = Some s' -> sgood s' = true.
-Proof. intros p G. start G; try bt. Qed.
+Proof. intros p G CF. start G CF; try bt. Qed.
 
-Lemma sS_ar : forall p, p_cons p = guardian ->
+Lemma sS_ar : forall p, p_cons p = guardian -> p_closefail p = false ->
   forall s s', Inv s -> SafeA s -> sgood s = true -> step p AAR s = Some s' -> sgood s' = true.
-Proof. intros p G. start G; try bt. all: try (destruct m; sgcbn; bt). Qed.
+Proof. intros p G CF. start G CF; try bt. all: try (destruct m; sgcbn; bt). Qed.
 
-Lemma sS_rel : forall p, p_cons p = guardian ->
+Lemma sS_rel : forall p, p_cons p = guardian -> p_closefail p = false ->
   forall s s', Inv s -> SafeA s -> sgood s = true -> step p ARel s = Some s' -> sgood s' = true.
-Proof. intros p G. start G; try bt. all: try (destruct m; sgcbn; bt). Qed.
+Proof. intros p G CF. start G CF; try bt. all: try (destruct m; sgcbn; bt). Qed.
 
-Lemma sS_rw : forall p, p_cons p = guardian ->
+Lemma sS_rw : forall p, p_cons p = guardian -> p_closefail p = false ->
   forall s s', Inv s -> SafeA s -> sgood s = true -> step p ARW s = Some s' -> sgood s' = true.
 Proof.
-  intros p G. start G; try bt.
+  intros p G CF. start G CF; try bt.
   all: prep; subst; repeat match goal with HI : ?a = true -> _, HA : ?a = true |- _ => specialize (HI HA) end; prep; subst; destruct e; sgcbn; bt.
 Qed.
 
-Lemma sgood_step : forall p a s s', p_cons p = guardian -> Inv s -> SafeA s -> sgood s = true ->
+Lemma sgood_step : forall p a s s', p_cons p = guardian -> p_closefail p = false -> Inv s -> SafeA s -> sgood s = true ->
   step p a s = Some s' -> sgood s' = true.
 Proof.
-  intros p a s s' G I SA HS H. destruct a;
+  intros p a s s' G CF I SA HS H. destruct a;
     eauto using sS_cancel, sS_main, sS_mainW, sS_mainC, sS_mainF, sS_wk, sS_wkcanc, sS_cons, sS_consctx,
                 sS_wa, sS_agg, sS_ar, sS_rel, sS_rw.
 Qed.
@@ -277,22 +279,23 @@ Proof.
   rewrite P, L. apply orb_true_r.
 Qed.
 
-Lemma safe_run : forall p acts s s', p_cons p = guardian -> Inv s -> SafeA s -> sgood s = true ->
+Lemma safe_run : forall p acts s s', p_cons p = guardian -> p_closefail p = false -> Inv s -> SafeA s -> sgood s = true ->
   run p acts s = Some s' -> Inv s' /\ SafeA s' /\ sgood s' = true.
 Proof.
-  induction acts as [|a r IH]; intros s s' G I SA HS H; cbn in H.
+  induction acts as [|a r IH]; intros s s' G CF I SA HS H; cbn in H.
   - inv H. auto.
   - destruct (step p a s) as [s1|] eqn:ST; [|discriminate].
-    exact (IH _ _ G (inv_step _ _ _ _ I ST) (safeA_step _ _ _ _ G I SA ST) (sgood_step _ _ _ _ G I SA HS ST) H).
+    exact (IH _ _ G CF (inv_step _ _ _ _ CF I ST) (safeA_step _ _ _ _ G CF I SA ST) (sgood_step _ _ _ _ G CF I SA HS ST) H).
 Qed.
 
 (** fail-fast validation returned nil => the directory was clean, for every schedule,
     cancellation instant, channel capacity, dir/symlink findings and file behaviours *)
 Theorem no_false_valid_lemma : forall p acts s,
-  p_cons p = guardian -> run p acts (init p) = Some s -> s_main s = MRet -> s_ret s = RNil -> clean p = true.
+  p_cons p = guardian -> p_closefail p = false ->
+  run p acts (init p) = Some s -> s_main s = MRet -> s_ret s = RNil -> clean p = true.
 Proof.
-  intros p acts s G H M R. destruct (clean p) eqn:CL; [reflexivity|exfalso].
-  destruct (safe_run p acts (init p) s G (inv_init p) (safeA_init p) (sgood_init p CL) H) as (I & SA & HS).
+  intros p acts s G CF H M R. destruct (clean p) eqn:CL; [reflexivity|exfalso].
+  destruct (safe_run p acts (init p) s G CF (inv_init p) (safeA_init p) (sgood_init p CL) H) as (I & SA & HS).
   destruct SA as [_ _ _ _ _ _ F2 _ _]. destruct (F2 M) as [E|(W & C & CS & _)]; [congruence|].
   unfold sgood, owed in HS. rewrite R, W, C in HS.
   destruct (s_cons s); cbn in CS; try discriminate; cbn in HS; rewrite andb_false_r in HS; discriminate.
@@ -300,9 +303,9 @@ Qed.
 
 (** the unchanged tree: WoundsGuardian.Do returns nil on ctx.Done(); with the context cancelled
     before the call Validate returns nil on a directory whose only file is missing *)
-Definition witness_unfixed : params := mkparams 1 [] false [FWhole] guardian_unfixed true.
+Definition witness_unfixed : params := mkparams 1 [] false [FWhole] guardian_unfixed true false.
 Definition witness_sched : list action :=
-  [ACons; AConsCtx; ACons; AMain; AMainC; AMain; AMain; AMain; AWk; AWk; AWk; AMain; AMain; AMain].
+  [ACons; AConsCtx; ACons; AMain; AMainC; AMain; AMain; AMain; AWk; AWk; AWk; AWk; AMain; AMain; AMain].
 
 Theorem no_false_valid_unfixed_refuted_lemma :
   exists p acts s, p_cons p = guardian_unfixed /\ run p acts (init p) = Some s /\
@@ -316,10 +319,10 @@ Qed.
     damaged files was reported is impossible for the guardian, so: two files, damage in the
     second, ctx cancelled while the first is being validated) *)
 Definition witness_mid : params :=
-  mkparams 2 [] false [FData [FHealthy] FMNone []; FWhole] guardian_unfixed false.
+  mkparams 2 [] false [FData [FHealthy] FMNone []; FWhole] guardian_unfixed false false.
 Definition witness_mid_sched : list action :=
   [ACons; AMain; AWk; AMainF; ACancel; AConsCtx; ACons; AMainC; AMain; AMain; AMain;
-   AWA; AAR; ARel; ACons; AWk; AWk; AWk; AWk; AAgg; ARel; ARW; AWk; AWk; AMain; AMain; AMain].
+   AWA; AAR; ARel; ACons; AWk; AWk; AWk; AWk; AAgg; ARel; ARW; AWk; AWk; AWk; AMain; AMain; AMain].
 
 Theorem no_false_valid_unfixed_mid_refuted_lemma :
   exists s, run witness_mid witness_mid_sched (init witness_mid) = Some s /\
